@@ -197,6 +197,8 @@ structure St where
   lex : Bool := true
   frames : List Frame := []
   pending : List Rec := []
+  /-- `pending_frame_inserts`: insert records appended since the last commit -/
+  pendingInserts : Nat := 0
   /-- every record physically in the WAL region, append order -/
   wal : List Rec := []
   cards : List Card := []
@@ -300,14 +302,14 @@ def commit (o : Oracles) (s : St) : St :=
     -- regions written by an EARLIER commit die when this commit rewrites the index area
     let staleNow := s.stale || (decide (0 < s.gen) && (!s.docs.isEmpty || !s.cards.isEmpty))
     if !s.lex then
-      { s with frames := frames', pending := [], dirty := false, gen := s.gen + 1, stale := staleNow }
+      { s with frames := frames', pending := [], pendingInserts := 0, dirty := false, gen := s.gen + 1, stale := staleNow }
     else if !s.pending.isEmpty then
       -- rebuild_indexes: the engine ends up holding exactly the active frames, in a layout chosen by
       -- the scheduler, under fresh random names; a Lex batch naming the files is appended to the WAL
       let ds := activeDocs frames'
       let segs' := layout o s.kUuid s.kSched ds
       let b := Rec.lexBatch (segs'.map (·.name))
-      { s with frames := frames', pending := [], wal := s.wal ++ [b], docs := ds, segs := segs', seq := s.seq + 1,
+      { s with frames := frames', pending := [], pendingInserts := 0, wal := s.wal ++ [b], docs := ds, segs := segs', seq := s.seq + 1,
                dirty := false, tantivyDirty := false, lexWritten := true, gen := s.gen + 1, stale := staleNow,
                workDir := if s.tantivyDirty then o.tmp s.kTmp else s.workDir,
                kTmp := if s.tantivyDirty then s.kTmp + 1 else s.kTmp,
@@ -338,17 +340,19 @@ def autoCards (o : Oracles) (k : Nat) (source : Nat) : List (Nat × Nat) → Lis
 def step (E : Engine) (o : Oracles) (s : St) : Op → St × Res
   | .put ts p u instant trip =>
       let seq' := s.seq + 1
+      -- `next_frame_id()` before the append: the id the document receives when its record is applied
+      let fid := s.frames.length + s.pendingInserts
       let r := Rec.insert ts p u none
-      let s1 := { s with pending := s.pending ++ [r], wal := s.wal ++ [r], seq := seq', dirty := true }
-      -- instant index: the document is added to the live engine under the WAL sequence number
+      let s1 := { s with pending := s.pending ++ [r], pendingInserts := s.pendingInserts + 1, wal := s.wal ++ [r], seq := seq', dirty := true }
+      -- instant index: the document is added to the live engine under the frame id it will receive
       let s2 := if instant && s.lex then
-          { s1 with docs := s1.docs ++ [{ id := seq', ts := ts, text := p }],
-                    segs := s1.segs ++ [{ name := o.uuid s1.kUuid, docs := [{ id := seq', ts := ts, text := p }] }],
+          { s1 with docs := s1.docs ++ [{ id := fid, ts := ts, text := p }],
+                    segs := s1.segs ++ [{ name := o.uuid s1.kUuid, docs := [{ id := fid, ts := ts, text := p }] }],
                     kUuid := s1.kUuid + 1, tantivyDirty := true }
         else s1
       let s3 := if trip.isEmpty then s2 else
-          { s2 with cards := s2.cards ++ autoCards o s2.kClock seq' trip,
-                    enrich := s2.enrich ++ [(seq', o.clock (s2.kClock + trip.length))],
+          { s2 with cards := s2.cards ++ autoCards o s2.kClock fid trip,
+                    enrich := s2.enrich ++ [(fid, o.clock (s2.kClock + trip.length))],
                     kClock := s2.kClock + trip.length + 1 }
       (s3, .ok seq')
   | .update id ts p =>
@@ -358,7 +362,7 @@ def step (E : Engine) (o : Oracles) (s : St) : Op → St × Res
         if f.status ≠ .active then (s, .err) else
           let seq' := s.seq + 1
           let r := Rec.insert (ts.getD f.ts) (p.getD f.payload) f.uri (some id)
-          ({ s with pending := s.pending ++ [r], wal := s.wal ++ [r], seq := seq', dirty := true }, .ok seq')
+          ({ s with pending := s.pending ++ [r], pendingInserts := s.pendingInserts + 1, wal := s.wal ++ [r], seq := seq', dirty := true }, .ok seq')
   | .delete id =>
       match s.frames[id]? with
       | none => (s, .err)
